@@ -29,7 +29,9 @@ claim("C20", "translator-generated cfg model + Lean 4 theorem by decide +kernel 
 claim("C07", "Lean 4 theorems (guard analysis per index site, induction over the scan loop) + differential correspondence on a malformed-input stream",
       "Proved for the model, for EVERY byte list: Request/Response/ExceptionResponse decode, the four length predictors, both extract_frame (every pdu_len below the usize overflow point, "
       "with a panic_iff lemma showing nothing else panics), both scanners in both directions and the four ADU decoders never return `panic`; termination is Lean's acceptance of the scan loop "
-      "(Props/C07.lean). The model returns `panic` at every index/slice/read/checked-add the Rust has, so each theorem is the argument that the guard suffices; PANIC vs ERR is part of the diff.",
+      "(Props/C07.lean). The model returns `panic` at every index/slice/read/checked-add the Rust has, so each theorem is the argument that the guard suffices; PANIC vs ERR is part of the diff. "
+      "Props/C07Dead.lean: the only lines of the crate the correspondence stream never executes (measured by tools/tiecov.py: 868/880 lines, 154/158 branch outcomes) are proved dead in the model — a framed response always passes the PDU stage, "
+      "the second MBAP header test in tcp::extract_frame and the post-encode size test of the TCP encoders never fire.",
       "extract_frame(buf, n) with n + 3 (RTU) / n + 7 (TCP) >= 2^64 overflows the checked addition in the crate and in the model; n is a caller-supplied length, not an input byte slice, and is outside the property's quantifier.")
 
 claim("C15", "Lean 4 theorems (byte-wise classification by decide +kernel, equality of functions of the whole buffer) + dense differential correspondence",
